@@ -1,8 +1,9 @@
 /-
   C14 model — per-object operator memory (`noticed_by_listing`, `fully_handled_once`,
   `resumed_handlers`) + cause
-  detection (C05) + the handler gate + one handling pass (C02), composed as the code composes them
-  in `process_resource_event` / `_detect_causes` / `process_changing_cause`.
+  detection (C05) + the handler gate + one handling pass (C02: the whole pass `cycleB`), composed as the code
+  composes them in `process_resource_event` / `_detect_causes` / `process_changing_cause`; + the other creator of
+  the memory, the admission webhooks (`admission`).
   Core Lean only.
 -/
 import Kopf.Model.C05_Cause
@@ -12,7 +13,9 @@ open Kopf
 
 /-- `inventory.ResourceMemory`, as far as resuming reads it. -/
 structure Mem where
-  noticed : Bool          -- created while the object was seen in a listing (event type None)
+  noticed : Option Bool   -- `noticed_by_listing: bool | None`: was the FIRST PROCESSED event of the object a listing one
+                          -- (event type None)? `none` = not known yet: the memory was created aside of the event
+                          -- processing, by an admission request (/repo 755fd2f)
   fullyHandled : Bool     -- `fully_handled_once`
   resumed : List C02.Id := []   -- `resumed_handlers`: resuming handlers that reached a final outcome for
                                 -- this object in this process while the cycle is still open (/repo 6c4463d)
@@ -45,25 +48,40 @@ def reasonStr : C05.Reason → String
   | .create => "create" | .update => "update" | .delete => "delete" | .resume => "resume"
   | .noop => "noop" | .free => "free" | .gone => "gone"
 
-/-- `memories.recall(raw_body, noticed_by_listing = raw_type is None)` -/
+/-- `memories.recall(raw_body, noticed_by_listing = raw_type is None)` from `process_resource_event`: a new memory
+    is created with the flag decided; a known one whose flag is not decided yet (`is None`) gets it decided now —
+    the first processed event of the object decides, whoever created the memory (/repo 755fd2f); a decided flag stays. -/
 def recall (m : Option Mem) (e : Event) : Mem :=
   match m with
-  | some mem => mem
-  | none => { noticed := e.byListing, fullyHandled := false }
+  | some mem =>
+      match mem.noticed with
+      | none => { mem with noticed := some e.byListing }
+      | some _ => mem
+  | none => { noticed := some e.byListing, fullyHandled := false }
 
 /-- The only other creator of an object's memory: `admission.serve_admission_request` →
     `memories.recall_memo(raw_body, ephemeral = (operation == 'CREATE'))` → `recall(...)` with
-    `noticed_by_listing` left at its default (False). A known memory is returned as it is; for an unknown
-    object a CREATE request gets a throw-away memory, every other operation (UPDATE, DELETE, CONNECT)
-    a persistent one. -/
+    `noticed_by_listing` left at its default — None, "not known yet", since /repo 755fd2f. A known memory is returned
+    as it is (an undecided flag stays undecided: `None` is passed); for an unknown object a CREATE request gets a
+    throw-away memory, every other operation (UPDATE, DELETE, CONNECT) a persistent one. -/
 def admission (m : Option Mem) (create : Bool) : Option Mem :=
   match m with
   | some mem => some mem
-  | none => if create then none else some { noticed := false, fullyHandled := false }
+  | none => if create then none else some { noticed := none, fullyHandled := false }
+
+/-- `admission` as it was before /repo 755fd2f (the flag was a plain boolean with the default False: the admission
+    request itself decided "not noticed by the listing"). Kept as the subject of the regression theorems of F10. -/
+def admissionOld (m : Option Mem) (create : Bool) : Option Mem :=
+  match m with
+  | some mem => some mem
+  | none => if create then none else some { noticed := some false, fullyHandled := false }
+
+/-- `bool(memory.noticed_by_listing)`: an undecided flag reads as False -/
+def Mem.isNoticed (mem : Mem) : Bool := mem.noticed == some true
 
 def inOf (mem : Mem) (e : Event) : C05.In :=
   { deleted := e.deleted, marked := e.marked, blocked := e.blocked, oldAbsent := e.oldAbsent,
-    diffNonEmpty := e.diffNonEmpty, initial := mem.noticed && !mem.fullyHandled }
+    diffNonEmpty := e.diffNonEmpty, initial := mem.isNoticed && !mem.fullyHandled }
 
 def causeOf (mem : Mem) (e : Event) : C05.Cause := C05.detect (inOf mem e)
 
@@ -86,14 +104,12 @@ structure StepResult where
   invoked : List (C02.Id × Nat)
   closed : Bool
 
-/-- The tail of `process_changing_cause` for the cause FREE (an object marked for deletion that the operator's
-    finalizer does not hold, kept alive by somebody else's): no handler will ever run for it again, so whatever
-    progress records the owned handlers left behind are purged — the same purge as on a no-op
-    (/repo 40d09eb; C02's `cycle` has the no-op one only). -/
-def freePurge (decls : List Decl) (c : C05.Cause) (P : C02.Store) : C02.Store :=
-  if c.reason = .free then
-    C02.purge P (C02.fromStorage P (decls.map (·.id))) (decls.map (·.id)) (decls.map (·.id))
-  else P
+/-- `handler.reason is not None` for a handler selected under this id: some registration under the id is declared for
+    the very reason of the cause (on.create / on.update / on.delete — the mix-in handlers, resuming and field, have
+    none). Such a handler does not inherit a record that carries another cause's purpose (its namesake's: one id
+    registered for several causes; /repo f7d6401): `C02.cycleB` leaves it out. -/
+def boundOf (decls : List Decl) (c : C05.Cause) (i : C02.Id) : Bool :=
+  decls.any (fun d => d.id == i && d.gate.reason == some c.reason)
 
 /-- One `process_resource_event` for the object, as far as resuming is concerned. -/
 def step (decls : List Decl) (m : Option Mem) (P : C02.Store) (e : Event) : StepResult :=
@@ -101,12 +117,13 @@ def step (decls : List Decl) (m : Option Mem) (P : C02.Store) (e : Event) : Step
   if e.suppressed then
     { mem := if e.deleted then none else some mem, P := P, invoked := [], closed := false }
   else
-    let r := C02.cycle (cfgOf decls mem e) P e.now e.now1 e.exec
-    let newly := (C02.cycleFinals (cfgOf decls mem e) P e.now e.exec).filter (isInitial decls)
+    -- the whole pass as the code has it (`C02.cycleB`: namesakes' records left out, FREE purges like the no-op)
+    let bound := boundOf decls (causeOf mem e)
+    let r := C02.cycleB (cfgOf decls mem e) bound P e.now e.now1 e.exec
+    let newly := (C02.cycleFinalsB (cfgOf decls mem e) bound P e.now e.exec).filter (isInitial decls)
     let mem' : Mem := { mem with fullyHandled := mem.fullyHandled || r.closed,
                                  resumed := if r.closed then [] else mem.resumed ++ newly }
-    { mem := if e.deleted then none else some mem', P := freePurge decls (causeOf mem e) r.P',
-      invoked := r.invoked, closed := r.closed }
+    { mem := if e.deleted then none else some mem', P := r.P', invoked := r.invoked, closed := r.closed }
 
 /-- A whole history of events of one object within one operator process. -/
 def run (decls : List Decl) : Option Mem → C02.Store → List Event → List (List (C02.Id × Nat))
@@ -123,5 +140,32 @@ def runViews (decls : List Decl) : Option Mem → List (Event × C02.Store) → 
   | m, (e, P) :: rest =>
       let r := step decls m P e
       r.invoked :: runViews decls r.mem rest
+
+/-- What happens to one object within one operator process, the admission webhooks included: a processed event, or an
+    admission request for the object (`create` = the operation is CREATE) served by `serve_admission_request`. -/
+inductive Inp where
+  | event (e : Event)
+  | review (create : Bool)
+
+/-- The history with the admission requests in it; they invoke no changing handler, they only touch the memory. -/
+def runA (decls : List Decl) : Option Mem → C02.Store → List Inp → List (List (C02.Id × Nat))
+  | _, _, [] => []
+  | m, P, .event e :: rest =>
+      let r := step decls m P e
+      r.invoked :: runA decls r.mem r.P rest
+  | m, P, .review create :: rest => runA decls (admission m create) P rest
+
+def eventsOf : List Inp → List Event
+  | [] => []
+  | .event e :: rest => e :: eventsOf rest
+  | .review _ :: rest => eventsOf rest
+
+/-- `runA` with the admission webhooks as they were before /repo 755fd2f. -/
+def runAOld (decls : List Decl) : Option Mem → C02.Store → List Inp → List (List (C02.Id × Nat))
+  | _, _, [] => []
+  | m, P, .event e :: rest =>
+      let r := step decls m P e
+      r.invoked :: runAOld decls r.mem r.P rest
+  | m, P, .review create :: rest => runAOld decls (admissionOld m create) P rest
 
 end Kopf.C14
